@@ -877,21 +877,29 @@ def slice_validate_counts(ctx, sink):
     import refmpq
     d = ctx.newdir("validate-counts")
     jobs = []
+    # (label, number of members, indices of the damaged ones): K leading members damaged, K around the values where a count stops
+    # fitting an exit status; and ONE damaged member at the front / in the middle / at the end of archives of more than 1000
+    # (thorough: 5000) members, where a tool that works through the members in portions has to carry its tally along (after C20-r8m3)
+    plans = []
     for k_bad in ((0, 1, 255, 256, 257, 512) if ctx.thorough else (0, 1, 256, 257)):
-        n = max(k_bad + 3, 8)
+        plans.append(("k%d" % k_bad, max(k_bad + 3, 8), list(range(k_bad))))
+    for n, at in ((1010, 3), (1010, 1006), (2049, 1200), (1001, 0), (1000, 999)) + (((5003, 7), (5003, 2600), (4097, 4096)) if ctx.thorough else ()):
+        plans.append(("n%d-at%d" % (n, at), n, [at]))
+    for label, n, bad in plans:
+        k_bad = len(bad)
         files = [refmpq.RefFile("v\\f%04d.txt" % i, (b"member %04d of a validation fixture; " % i) * 8, 0x02) for i in range(n)]
         arc, info = refmpq.write_archive(files, version=1, shift=3, listfile=True)
         arc = bytearray(arc)
-        for i in range(k_bad):
+        for i in bad:
             pos, csize, _fsize, _flags = info["blocks"][i]
             for j in range(pos + 9, pos + csize):
                 arc[j] = 0xFF
-        path = os.path.join(d, "k%d.mpq" % k_bad)
+        path = os.path.join(d, "%s.mpq" % label)
         with open(path, "wb") as f:
             f.write(arc)
-        jobs.append((k_bad, n, path))
+        jobs.append((k_bad, n, path, label))
     outs = pmap(lambda j: ctx.run_cli(["mpq", "validate", j[2]]), jobs)
-    for (k_bad, n, path), r in zip(jobs, outs):
+    for (k_bad, n, path, label), r in zip(jobs, outs):
         viols = []
         detail = {"cmd": short_cmd(["mpq", "validate", path], ctx.scratch), "members": n, "unreadable": k_bad, "stdout": r["out"][-300:], "stderr": r["err"][-300:]}
         if r["rc"] is not None:
@@ -900,7 +908,9 @@ def slice_validate_counts(ctx, sink):
             if k_bad == 0 and r["rc"] != 0:
                 viols.append(("valid-input-rejected", f"`mpq validate` exited {rc_class(r['rc'])} on an intact archive written by the independent writer", detail))
         sink.res.add_counter("validate_runs_by_damaged_member_count", 1)
-        sink.record("mpq", "validate", "valid" if k_bad == 0 else "damaged-members", "k%d" % k_bad, r, viols, replay={"slice": "V", "k": k_bad})
+        if n >= 1000:
+            sink.res.add_counter("validate_runs_on_archives_of_1000_or_more_members", 1)
+        sink.record("mpq", "validate", "valid" if k_bad == 0 else "damaged-members", label, r, viols, replay={"slice": "V", "k": k_bad})
 
 
 def slice_list_info(ctx, sink, archives):
